@@ -254,7 +254,7 @@ def encode(v: float, miss: str | None) -> Any:
         return Quantity(float(v))
     if miss == "none":
         return None
-    return Quantity({"nan": math.nan, "inf": math.inf, "-inf": -math.inf}[miss])
+    return Quantity({"nan": float("nan"), "inf": math.inf, "-inf": -math.inf}[miss])
 
 
 async def run_program(prog: dict[str, Any], out: dict[str, Any], pace_timeout: float = 5.0) -> None:
